@@ -6,6 +6,7 @@ package sim
 import (
 	"bytes"
 	"context"
+	"encoding/hex"
 	"fmt"
 
 	ipfslog "berty.tech/go-ipfs-log"
@@ -352,7 +353,57 @@ func (w *World) doRawEntry() {
 			tmpl.Clock = nil // the entry API then gives the default clock: the writer's key at time 0
 			r.Probe("entry-with-default-clock")
 		}
-		e, err := entry.CreateEntryWithIO(w.ctx, w.St, n.W.ID, tmpl, nil, w.IO)
+		var tmplIn iface.IPFSLogEntry = tmpl
+		if picks[6]%3 == 0 && len(known) > 0 {
+			// the application derives the new entry from one it already has (a copy of an entry of this writer
+			// that went through the codec before, with other links and perhaps another payload or time): what
+			// the copy carries over from its first publication must not leak into the new entry
+			myKey := hex.EncodeToString(n.W.ID.PublicKey)
+			for i := 0; i < len(known); i++ {
+				bh := known[(picks[7]+i)%len(known)]
+				if bm := w.M.Reg[bh]; bm.ClockID != myKey || bm.LogID != w.LogID || w.Ent[bh] == nil {
+					continue
+				}
+				base := w.Ent[bh]
+				keep := picks[9] % 8
+				dNext, dRefs, dPl, dT := next, refs, pl, clockT
+				if keep&1 != 0 {
+					dNext = append([]cid.Cid(nil), base.GetNext()...)
+					dRefs = nil
+					for _, c := range refs {
+						if !containsCid(dNext, c) {
+							dRefs = append(dRefs, c)
+						}
+					}
+				}
+				if keep&2 != 0 {
+					dPl = append([]byte(nil), base.GetPayload()...)
+				}
+				if keep&4 != 0 {
+					dT = base.GetClock().GetTime()
+				}
+				if keep == 7 && cidsEq(dRefs, base.GetRefs()) {
+					break // that would be the base entry itself
+				}
+				next, refs, pl, clockT = dNext, dRefs, dPl, dT
+				fpBase := fingerprint(base)
+				d := base.Copy()
+				d.SetPayload(pl)
+				d.SetNext(next)
+				d.SetRefs(refs)
+				d.SetClock(entry.NewLamportClock(n.W.ID.PublicKey, clockT))
+				tmplIn = d
+				r.Probe("entry-derived-from-published-entry")
+				r.Logf("raw-entry template: copy of %s keeping next=%v payload=%v time=%v", w.M.Name(bh), keep&1 != 0, keep&2 != 0, keep&4 != 0)
+				defer func() {
+					if f := fingerprint(base); f != fpBase {
+						r.Violate(w.P.Prop+":mutated", "creating an entry from a copy of %s changed %s itself: was %s now %s", w.M.Name(bh), w.M.Name(bh), fpBase, f)
+					}
+				}()
+				break
+			}
+		}
+		e, err := entry.CreateEntryWithIO(w.ctx, w.St, n.W.ID, tmplIn, nil, w.IO)
 		if err != nil {
 			r.Violate(w.P.Prop+":create-entry", "CreateEntryWithIO failed for next=%d refs=%d: %v", len(next), len(refs), err)
 		}
